@@ -267,9 +267,12 @@ def run_property(prop: str, tier: str, seed: int) -> int:
 
     replay_paths = []
     if unlisted:
-        os.makedirs(os.path.join(ROOT, "replays"), exist_ok=True)
+        # (VERIF_REPLAY_DIR: concurrent runs of one check against different trees, e.g. tools/run_seeded.py --jobs, must not
+        # overwrite each other's replay files)
+        rdir = os.environ.get("VERIF_REPLAY_DIR") or os.path.join(ROOT, "replays")
+        os.makedirs(rdir, exist_ok=True)
         for n, v in enumerate(unlisted[:10]):
-            path = os.path.join(ROOT, "replays", f"{prop}-{seed}-{n}.json")
+            path = os.path.join(rdir, f"{prop}-{seed}-{n}.json")
             with open(path, "w") as f:
                 json.dump({"property": prop, "tier": tier, "seed": seed, **v}, f, indent=1, default=str)
             replay_paths.append(path)
